@@ -43,6 +43,8 @@ class ULPIRegisterWindow(Elaboratable):
 
         # Controller signals:
         O: busy              -- indicates when the register window is busy processing a transaction
+        O: read_in_progress  -- indicates that the PHY has accepted a register read; i.e. that the next byte
+                                it presents with NXT low is the read data, rather than an RxCmd
         I: address[6]        -- the address of the register to work with
         O: done              -- strobe that indicates when a register request is complete
 
@@ -75,6 +77,7 @@ class ULPIRegisterWindow(Elaboratable):
         self.done          = Signal()
 
         self.read_request  = Signal()
+        self.read_in_progress = Signal()
         self.read_data     = Signal(8)
 
         self.write_request = Signal()
@@ -98,6 +101,9 @@ class ULPIRegisterWindow(Elaboratable):
 
             # We're busy whenever we're not IDLE; indicate so.
             m.d.comb += self.busy.eq(~fsm.ongoing('IDLE'))
+
+            # Let the RxCmd decoder know when the PHY is answering a read.
+            m.d.comb += self.read_in_progress.eq(fsm.ongoing('READ_TURNAROUND') | fsm.ongoing('READ_COMPLETE'))
 
             # IDLE: wait for a request to be made
             with m.State('IDLE'):
@@ -877,7 +883,9 @@ class UTMITranslator(Elaboratable):
 
             # Connect our data inputs to the event decoder.
             # Note that the event decoder is purely passive.
-            rxevent_decoder.register_operation_in_progress.eq(register_window.busy),
+            # Note that only the answer to a register read makes the PHY present something other than an RxCmd
+            # while DIR is high and NXT is low; RxCmds that interrupt or delay a register operation must be decoded.
+            rxevent_decoder.register_operation_in_progress.eq(register_window.read_in_progress),
             self.last_rx_command          .eq(rxevent_decoder.last_rx_command),
 
             # Connect our inputs to our transmit translator.
